@@ -13,7 +13,8 @@ RULE = ('one case = a repository produced by the real snapshot command (encrypte
         'boundary, middle, last byte + seeded offsets), truncate (0, 1, nonce length, len-1, seeded), extend (+1 byte, +block), swap with other '
         'objects of the same kind, replay of one object under the name of another, delete - applied singly - plus seeded pairs; after each, '
         'the real restore runs (no cache / cold cache / warm cache holding the undamaged snapshot) under a seeded schedule, and once more '
-        'with the same cache directory when the first attempt raised. Oracle: restore '
+        'with the same cache directory when the first attempt raised; every fifth case restores once before the damage and once after it through the '
+        'same Repository object. Oracle: restore '
         'raises, or the tree it produced equals the captured contents (of all snapshots, or of all but a snapshot whose object was made '
         'invisible). quick samples at most 160 damage cases per repository, thorough 1500. evaluations = damage cases run; '
         'distinct_nontrivial = distinct (object kind, damage kind, outcome) over all cases with their position bucket')
@@ -22,7 +23,7 @@ COMPONENTS = {
     'stub': ['OS thread scheduling', 'clocks', 'os.urandom', 'object store (SimStore) whose stored bytes are damaged between commands'],
 }
 ASSUMPTIONS = ['the adversary cannot compute keyed MACs (replay is under an existing name)', 'hash collisions do not occur']
-PROBES = ['retry_same_cache', 'flip', 'truncate', 'extend', 'swap', 'replay', 'delete', 'pair', 'restore_raised', 'restore_ok_intact', 'restore_ok_without_damaged_snapshot', 'warm_cache']
+PROBES = ['same_instance_after_damage', 'retry_same_cache', 'flip', 'truncate', 'extend', 'swap', 'replay', 'delete', 'pair', 'restore_raised', 'restore_ok_intact', 'restore_ok_without_damaged_snapshot', 'warm_cache']
 TIERS = {'quick': {'budget_s': 45, 'batch': 1}, 'thorough': {'budget_s': 900, 'batch': 2}}
 
 
@@ -148,7 +149,25 @@ def run_case(case):
                 H.probe('warm_cache')
             target = W.dir / 'out'
             shutil.rmtree(target, ignore_errors=True)
-            r = W.restore(client, target, H.opts, state=st)
+            if pi % 5 == 4 and mode == 'none':
+                # one long-lived Repository object: a successful restore, then the damage, then another restore
+                # through the same object (library use; whatever the first restore learned must not vouch for new bytes)
+                st = base.copy()
+                pre_target = W.dir / 'out-before-damage'
+                shutil.rmtree(pre_target, ignore_errors=True)
+
+                async def two_restores(repo, plan=plan, st=st):
+                    from pathlib import Path
+                    await repo.restore(path=Path(pre_target))
+                    for d in plan:
+                        apply(st.objects, d)
+                    r2 = await repo.restore(path=Path(target))
+                    return {'files': r2.files}
+                r = W.run(client, two_restores, H.opts, state=st)
+                H.probe('same_instance_after_damage')
+                shutil.rmtree(pre_target, ignore_errors=True)
+            else:
+                r = W.restore(client, target, H.opts, state=st)
             evaluations += 1
             pos = 'n/a'
             d0 = plan[0]
